@@ -544,8 +544,11 @@ func (g *c08Gen) family(f int) {
 
 func genC08(r *Rng, tier string, k int) *RunSpec {
 	o := defaultOpt()
-	if r.Intn(3) == 0 {
+	switch r.Intn(6) {
+	case 0, 1:
 		o.Transport = "queued"
+	case 2:
+		o.Transport = "httpsig" // the real HttpSigTransport (its goroutines and mutexes join the schedule)
 	}
 	st := newStd(o)
 	// a second stored Follow so that two Accepts verify; a populated followers collection for forwarding
